@@ -273,23 +273,6 @@ void uninitialized_shift_left(T *first, SizeType n) noexcept {
   amc::uninitialized_relocate_n(first, n, first - 1);
 }
 
-/// Construct at 'pos' the T from 'args' parameters, shifting 'n' elements starting at 'pos' to the right
-template <class T, class SizeType, class... Args>
-inline void emplace_n(T *pos, SizeType n, Args &&...args) {
-  if (n == 0) {
-    amc::construct_at(pos, std::forward<Args>(args)...);
-  } else {
-    shift_right(pos, n);
-    destroy_after_shift(pos);
-    try {
-      amc::construct_at(pos, std::forward<Args>(args)...);
-    } catch (...) {
-      uninitialized_shift_left(pos + 1, n);
-      throw;
-    }
-  }
-}
-
 template <class T, class V, typename std::enable_if<!amc::is_trivially_relocatable<T>::value, bool>::type = true>
 inline void assign_after_shift(T *pos, V &&v) {
   *pos = std::forward<V>(v);
@@ -334,6 +317,33 @@ class ElemStorage {
  private:
   alignas(T) std::uint8_t _el[sizeof(T)];
 };
+
+/// Construct at 'pos' the T from 'args' parameters, shifting 'n' elements starting at 'pos' to the right
+template <class T, class SizeType, class... Args>
+inline void emplace_n(T *pos, SizeType n, Args &&...args) {
+  if (n == 0) {
+    amc::construct_at(pos, std::forward<Args>(args)...);
+  } else {
+    // construct the new element before the shift: 'args' may refer to one of the elements about to be moved
+    ElemStorage<T> e;
+    amc::construct_at(e.ptr(), std::forward<Args>(args)...);
+    shift_right(pos, n);
+    try {
+      relocate_after_shift(e.ptr(), pos);
+    } catch (...) {
+      shift_left(pos + 1, n);
+      throw;
+    }
+  }
+}
+
+/// Address where the value referred to by 'v' is found once the 'n' elements starting at 'pos' have been shifted
+/// 'count' slots to the right: if 'v' is one of these elements, it has been shifted as well.
+template <class T, class SizeType>
+inline const T *address_after_shift(const T &v, const T *pos, SizeType n, SizeType count) {
+  const T *pv = std::addressof(v);
+  return pv >= pos && pv < pos + n ? pv + count : pv;
+}
 
 /// This class represents a merge of a pointer and some inline storage elements.
 /// Thanks to this optimization, SmallVector behaves like a string type with SSO
@@ -1206,7 +1216,8 @@ class VectorImpl : public VectorDestr<T, Alloc, SizeType, WithInlineElements, Gr
     assert(position >= this->cbegin() && position <= cend());
     const_reference newV = this->adjustCapacity(static_cast<uintmax_t>(this->size()) + 1U, v, &position);
     iterator pos = const_cast<iterator>(position);
-    insert_n(pos, this->size() - (pos - this->begin()), newV);
+    SizeType nElemsToShift = static_cast<SizeType>(this->size() - (pos - this->begin()));
+    insert_n(pos, nElemsToShift, *address_after_shift(newV, pos, nElemsToShift, static_cast<SizeType>(1)));
     this->incrSize();
     return pos;
   }
@@ -1230,7 +1241,7 @@ class VectorImpl : public VectorDestr<T, Alloc, SizeType, WithInlineElements, Gr
         std::uninitialized_fill_n(pos, count, newV);
       } else {
         shift_right(pos, nElemsToShift, count);
-        fill_after_shift(pos, nElemsToShift, count, newV);
+        fill_after_shift(pos, nElemsToShift, count, *address_after_shift(newV, pos, nElemsToShift, count));
       }
       this->setSize(this->size() + count);
     } else {
